@@ -196,6 +196,9 @@ pub fn for_each_string(run: &Run, f: &F, pool: &rayon::ThreadPool, visit: &(dyn 
     let g3 = st::g3(f, &sigma);
     run.count(&format!("g3_strings_{}", f.name), g3.len() as u64);
     pool.install(|| g3.par_iter().for_each(|s| visit(s)));
+    let g9 = st::g9_special_pairs(f);
+    run.count(&format!("g9_special_pair_strings_{}", f.name), g9.len() as u64);
+    pool.install(|| g9.par_iter().for_each(|s| visit(s)));
     let g7 = st::g7_nested_empty(f);
     run.count(&format!("g7_nested_empty_strings_{}", f.name), g7.len() as u64);
     pool.install(|| g7.par_iter().for_each(|s| visit(s)));
